@@ -416,8 +416,9 @@ pub fn validate_spans(spans: &mut [DataSpan]) -> Result<()> {
         return Ok(());
     }
 
-    // Sort by offset
-    spans.sort_by_key(|s| s.offset);
+    // Sort by offset; an empty span sorts before a non-empty span at the
+    // same offset so that the adjacent-pair check does not report it
+    spans.sort_by_key(|s| (s.offset, s.length));
 
     // Check adjacent pairs for overlap
     for i in 0..spans.len() - 1 {
